@@ -21,6 +21,11 @@
 (* TLC integers (signed 32 bit).  Immediates are byte-limb words (Words.tla) *)
 (* of the width the instruction operates on, after sign extension.  Printed  *)
 (* integers arrive as 16-limb two's-complement words.                        *)
+(*                                                                           *)
+(* (Bound variables of the constant definitions are named ins, cc, ... and   *)
+(* not i, c: a module that extends this one and declares VARIABLE i or c     *)
+(* would turn Table etc. into state-level expressions that TLC re-evaluates  *)
+(* on every use instead of once.)                                            *)
 EXTENDS Words, FiniteSets
 
 None == -1                 \* no base / no index / no opcode extension
